@@ -46,15 +46,27 @@ PNAMES = ['pY', 'pZ', 'pIsc', 'pVoc', 'pArg0', 'pArg1', 'pAlpha', 'pEps', 'pA11'
           'pY11', 'pY12', 'pY21', 'pY22', 'pZM0', 'pZM1', 'pZL1', 'pZL2', 'pK']
 
 
-def q(x):
-    return core.qc_lit(x)
+def q(x, F='Q'):
+    """Coq literal in QcF (F='Q') or in the Gaussian rationals QcIF (F='I'; worker format 're|im')"""
+    if F == 'Q':
+        return core.qc_lit(x)
+    re_, _, im_ = str(x).partition('|')
+    a, c = Fraction(re_), Fraction(im_ or 0)
+    return '(qi (%d) %d (%d) %d)' % (a.numerator, a.denominator, c.numerator, c.denominator)
+
+
+FIELD = {'Q': ('QcF', 'qc_eqb', '0%Qc'), 'I': ('QcIF', 'qci_eqb', 'ci0')}
+
+
+def valid(v, F):
+    return v is not None and (F == 'I' or '|' not in str(v))
 
 
 def b(x):
     return 'true' if x else 'false'
 
 
-def raw_of(e, ids, kindc, owner, eps):
+def raw_of(e, ids, kindc, owner, eps, F='Q'):
     """Coq `Raw` literal for one element of the worker output, or None if unsupported"""
     cl = owner
     if cl not in CNAMES:
@@ -62,12 +74,13 @@ def raw_of(e, ids, kindc, owner, eps):
     pr = dict(e['params'])
     pr['pEps'] = eps
     arms = []
+    KN, EQ, ZERO = FIELD[F]
     for pn in PNAMES:
-        if pr.get(pn) is not None:
-            arms.append('%s => %s' % (pn, q(pr[pn])))
-    par = '(fun n => match n with %s | _ => 0%%Qc end)' % ' | '.join(arms) if arms else '(fun _ => 0%Qc)'
+        if valid(pr.get(pn), F):
+            arms.append('%s => %s' % (pn, q(pr[pn], F)))
+    par = '(fun n => match n with %s | _ => %s end)' % (' | '.join(arms), ZERO) if arms else '(fun _ => %s)' % ZERO
     if not arms:
-        par = '(fun _ => 0%Qc)'
+        par = '(fun _ => %s)' % ZERO
     elif len(arms) == len(PNAMES):
         par = '(fun n => match n with %s end)' % ' | '.join(arms)
     n = (e['nidx'] + [-1, -1, -1, -1])[:4]
@@ -76,13 +89,119 @@ def raw_of(e, ids, kindc, owner, eps):
     typ = {'C': 'TyC', 'm': 'TyM'}.get(e['type'], 'TyOtherType')
     info = '(CI %d %s %s %s %d)' % (ids[e['name']], b(e['need_branch_current']), b(e['need_extra_branch_current']),
                                     b(e['is_current_controlled']), ctrl)
-    return ('(Raw c%s %s %s %s (%d) (%d) (%d) (%d) (%d) (%d) %d %d %s %s %s %s %s)' % (
-        cl, info, kindc, typ, n[0], n[1], n[2], n[3], cidx[0], cidx[1],
+    return ('(Raw %s c%s %s %s %s (%d) (%d) (%d) (%d) (%d) (%d) %d %d %s %s %s %s %s)' % (
+        KN, cl, info, kindc, typ, n[0], n[1], n[2], n[3], cidx[0], cidx[1],
         ids.get(e.get('L1'), 0), ids.get(e.get('L2'), 0),
         b(e.get('has_ic')), b(e.get('ctrl_is_vsrc', False)), b(e['nargs'] > 1), b(e.get('tp_has_src')), par))
 
 
 # ---- independent textbook oracle ---------------------------------------------
+class G:
+    """exact Gaussian rational (used for the ac kinds; for the real kinds im stays 0)"""
+    __slots__ = ('re', 'im')
+
+    def __init__(self, re_=0, im_=0):
+        if isinstance(re_, G):
+            re_, im_ = re_.re, re_.im
+        elif isinstance(re_, str):
+            a, _, c = re_.partition('|')
+            re_, im_ = Fraction(a), Fraction(c or 0)
+        self.re, self.im = Fraction(re_), Fraction(im_)
+
+    def __add__(self, o):
+        o = G(o)
+        return G(self.re + o.re, self.im + o.im)
+    __radd__ = __add__
+
+    def __neg__(self):
+        return G(-self.re, -self.im)
+
+    def __sub__(self, o):
+        return self + (-G(o))
+
+    def __rsub__(self, o):
+        return G(o) - self
+
+    def __mul__(self, o):
+        o = G(o)
+        return G(self.re * o.re - self.im * o.im, self.re * o.im + self.im * o.re)
+    __rmul__ = __mul__
+
+    def __truediv__(self, o):
+        o = G(o)
+        n = o.re * o.re + o.im * o.im
+        return self * G(o.re / n, -o.im / n)
+
+    def __eq__(self, o):
+        if o is None:
+            return False
+        o = G(o)
+        return self.re == o.re and self.im == o.im
+
+    def __ne__(self, o):
+        return not self.__eq__(o)
+
+    def __hash__(self):
+        return hash((self.re, self.im))
+
+    def __repr__(self):
+        return str(self.re) if self.im == 0 else '(%s) + (%s)j' % (self.re, self.im)
+
+
+PHASES = {'0': G(1), 'pi/2': G(0, 1), '-pi/2': G(0, -1), 'pi': G(-1), '-pi': G(-1), '3*pi/2': G(0, -1)}
+
+
+def source_value(toks, kind, ac, s):
+    """value a V/I source line prescribes in the sub-analysis `kind`, read from
+    the NETLIST TEXT only (None = form not handled).  toks = netlist tokens."""
+    args = toks[3:]
+    if not args:
+        return None
+    kw = args[0]
+    vals = [a.strip('{}') for a in args[1:]]
+
+    def num(x):
+        try:
+            return Fraction(x)
+        except Exception:
+            return None
+    if kw == 'dc' and len(vals) == 1:
+        v = num(vals[0])
+        if v is None:
+            return None
+        return G(v) if kind == 'dc' else (G(v) / s if kind == 'ivp' else G(0))
+    if kw == 'step' and len(vals) == 1:
+        v = num(vals[0])
+        if v is None:
+            return None
+        return G(v) / s if kind in ('s', 'ivp', 'laplace', 'transient') else G(0)
+    if kw == 'ac' and len(vals) in (1, 2, 3):
+        v = num(vals[0])
+        ph = PHASES.get(vals[1].replace(' ', '')) if len(vals) > 1 else G(1)
+        if v is None or ph is None or len(vals) < 3:
+            return None
+        om = num(vals[2])
+        if om is None:
+            return None
+        if ac:
+            return G(v) * ph if num(kind) == om else G(0)
+        return G(0) if kind == 'dc' else None
+    if len(args) == 1 and num(kw.strip('{}')) is not None:
+        v = num(kw.strip('{}'))          # `V1 1 0 5`: constant source
+        if kind == 'dc':
+            return G(v)
+        if kind == 'ivp':
+            return G(v) / s
+        return None
+    m = re.match(r'^\{?(-?[0-9/]+)\*exp\(-(\d+)\*t\)\*u\(t\)\}?$', kw) if len(args) == 1 else None
+    if m:
+        v = num(m.group(1))
+        if v is None:
+            return None
+        return G(v) / (s + int(m.group(2))) if kind in ('s', 'ivp', 'laplace', 'transient') else G(0)
+    return None
+
+
 def parse_val(tok):
     tok = tok.strip('{}')
     try:
@@ -96,13 +215,20 @@ def oracle(case, kd, s0):
     netlist text and textbook relations.  kd = worker dump for one kind."""
     bad = []
     kind = kd['kind']
-    if kind not in ('dc', 's', 'ivp', 'laplace', 'transient'):
+    is_ac = bool(kd.get('ac'))
+    if kind not in ('dc', 's', 'ivp', 'laplace', 'transient') and not is_ac:
         return bad
-    V = {k: (Fraction(v) if v is not None else None) for k, v in kd.get('Vdict', {}).items()}
-    I = {k: (Fraction(v) if v is not None else None) for k, v in kd.get('Idict', {}).items()}
+    V = {k: (G(v) if v is not None else None) for k, v in kd.get('Vdict', {}).items()}
+    I = {k: (G(v) if v is not None else None) for k, v in kd.get('Idict', {}).items()}
     if any(v is None for v in V.values()):
         return bad
-    s = Fraction(s0)
+    if is_ac:
+        try:
+            s = G(0, Fraction(kind))      # s = j omega
+        except Exception:
+            return bad
+    else:
+        s = G(Fraction(s0))
     node_sum = {}      # node index -> sum of currents leaving the node through elements
     incomplete = set()
 
@@ -142,6 +268,15 @@ def oracle(case, kd, s0):
             leave(e['nidx'][0], cur)
             leave(e['nidx'][1], -cur)
             dv = v1 - v2
+            if ty in ('V', 'I'):
+                sv = source_value(toks, kind, is_ac, s)
+                if sv is not None:
+                    if ty == 'V' and dv != sv:
+                        bad.append('%s: voltage source does not impose the value its netlist line prescribes (v=%s, prescribed %s)' % (nm, dv, sv))
+                    # Lcapy's I source injects its value INTO its first node (Circuit.v: drawn_I), so the
+                    # current through it from the first to the second node (passive convention) is -value
+                    if ty == 'I' and cur != -sv:
+                        bad.append('%s: current source does not drive the value its netlist line prescribes (i=%s, prescribed %s)' % (nm, cur, -sv))
             if ty == 'R':
                 r = parse_val(toks[3])
                 if r is not None and dv != r * cur:
@@ -237,7 +372,7 @@ def oracle(case, kd, s0):
 
 
 # ---- cases file ------------------------------------------------------------------
-HEADER = ('Require Import LT.FieldSec LT.Circuit LT.MNA Gen.StampsGen Gen.C01model.\n'
+HEADER = ('Require Import LT.FieldSec LT.QcI LT.Circuit LT.MNA Gen.StampsGen Gen.C01model.\n'
           'Local Open Scope Z_scope.\n')
 
 
@@ -247,10 +382,13 @@ def build_checks(ci, case, wres, tr, res, point_eps):
     if 'kinds' not in wres:
         return checks
     for kind, kd in wres['kinds'].items():
-        if kind not in KINDS:
-            res.count('kind_skipped_' + ('ac_or_noise' if kind not in KINDS else kind))
+        F = 'I' if kd.get('ac') else 'Q'
+        if kind not in KINDS and F == 'Q':
+            res.count('kind_skipped_' + ('noise_or_other' if kind not in KINDS else kind))
             continue
-        kindc = KINDS[kind]
+        KN, EQ, ZERO = FIELD[F]
+        kindc = 'KAc' if F == 'I' else KINDS[kind]
+        kt = re.sub(r'[^A-Za-z0-9]', '_', kind)
         ids = {e['name']: i for i, e in enumerate(kd['elements'])}
         raws = []
         ok = True
@@ -261,7 +399,7 @@ def build_checks(ci, case, wres, tr, res, point_eps):
                 if o:
                     owner = o
                     break
-            r = raw_of(e, ids, kindc, owner, point_eps) if owner else None
+            r = raw_of(e, ids, kindc, owner, point_eps, F) if owner else None
             if r is None:
                 ok = False
                 res.count('unsupported_class_' + str(e['cls']))
@@ -269,8 +407,8 @@ def build_checks(ci, case, wres, tr, res, point_eps):
             raws.append(r)
         if not ok:
             continue
-        es = 'es_%d_%s' % (ci, kind)
-        defn = 'Definition %s : list raw := [%s].' % (es, ';\n  '.join(raws))
+        es = 'es_%d_%s' % (ci, kt)
+        defn = 'Definition %s : list (raw %s) := [%s].' % (es, KN, ';\n  '.join(raws))
         # unknown ordering
         exp = []
         for k in kd['unknown_branch_currents']:
@@ -280,20 +418,22 @@ def build_checks(ci, case, wres, tr, res, point_eps):
                 exp.append('(%d%%nat, true)' % ids[k[:-1]])
             else:
                 exp.append('(999%nat, false)')
-        checks.append(('%d/%s/unknowns' % (ci, kind), defn, 'check_unknowns %s [%s]' % (es, '; '.join(exp))))
+        checks.append(('%d/%s/unknowns' % (ci, kind), defn, 'check_unknowns %s %s [%s]' % (KN, es, '; '.join(exp))))
         # entries
         A, Zv = kd['A'], kd['Z']
         nn = len(kd['node_list']) - 1
         mm = len(kd['unknown_branch_currents'])
-        if all(x is not None for row in A for x in row) and all(x is not None for x in Zv):
+        if all(valid(x, F) for row in A for x in row) and all(valid(x, F) for x in Zv):
             ents = []
             for r in range(nn + mm):
                 for c in range(nn + mm):
                     blk = ('MG' if c < nn else 'MB') if r < nn else ('MC' if c < nn else 'MD')
-                    ents.append('(%s, %d, %d, %s)' % (blk, r if r < nn else r - nn, c if c < nn else c - nn, q(A[r][c])))
-                ents.append('(%s, %d, 0, %s)' % ('MIs' if r < nn else 'MEs', r if r < nn else r - nn, q(Zv[r])))
-            checks.append(('%d/%s/entries' % (ci, kind), None, 'check_entries %s [%s]' % (es, '; '.join(ents))))
+                    ents.append('(%s, %d, %d, %s)' % (blk, r if r < nn else r - nn, c if c < nn else c - nn, q(A[r][c], F)))
+                ents.append('(%s, %d, 0, %s)' % ('MIs' if r < nn else 'MEs', r if r < nn else r - nn, q(Zv[r], F)))
+            checks.append(('%d/%s/entries' % (ci, kind), None, 'check_entries %s %s %s [%s]' % (KN, EQ, es, '; '.join(ents))))
             res.count('entries_compared', len(ents))
+            if F == 'I':
+                res.count('ac_entries_compared', len(ents))
         else:
             res.count('matrix_not_rational')
         if kd.get('has_eps'):
@@ -302,12 +442,12 @@ def build_checks(ci, case, wres, tr, res, point_eps):
         # solver contract and reporting
         first = None
         for m, x in kd.get('solutions', {}).items():
-            if isinstance(x, dict) or any(v is None for v in x):
+            if isinstance(x, dict) or any(not valid(v, F) for v in x):
                 res.count('solution_unavailable_' + m)
                 continue
-            xs = '[%s]' % '; '.join(q(v) for v in x)
+            xs = '[%s]' % '; '.join(q(v, F) for v in x)
             checks.append(('%d/%s/solution_%s' % (ci, kind, m), None,
-                           'check_solution %s %d%%nat %d%%nat %s' % (es, nn, mm, xs)))
+                           'check_solution %s %s %s %d%%nat %d%%nat %s' % (KN, EQ, es, nn, mm, xs)))
             if first is None:
                 first = xs
         if first is None or 'Idict' not in kd:
@@ -315,27 +455,27 @@ def build_checks(ci, case, wres, tr, res, point_eps):
         conv = {'passive': 'Passive', 'hybrid': 'Hybrid', 'active': 'Active'}[case.get('convention', 'passive')]
         for e in kd['elements']:
             nm = e['name']
-            if nm not in kd['Idict'] or kd['Idict'][nm] is None:
+            if nm not in kd['Idict'] or not valid(kd['Idict'][nm], F):
                 continue
             if e['type'] in ('R', 'NR', 'C', 'Y', 'Z'):
                 V0, Zr = e['params'].get('V0'), e['params'].get('pZ')
-                if V0 is None or Zr is None:
+                if not valid(V0, F) or not valid(Zr, F):
                     continue
-                rk, v0, zr = 'RImm', q(V0), q(Zr)
+                rk, v0, zr = 'RImm', q(V0, F), q(Zr, F)
             elif e['type'] == 'I':
-                rk, v0, zr = 'RIsrc', '0%Qc', '1%Qc'
+                rk, v0, zr = 'RIsrc', ZERO, q('1', F)
             elif nm in kd['unknown_branch_currents']:
-                rk, v0, zr = '(RBranch %s)' % b(e['is_source']), '0%Qc', '1%Qc'
+                rk, v0, zr = '(RBranch %s)' % b(e['is_source']), ZERO, q('1', F)
             else:
                 continue
-            checks.append(('%d/%s/I_%s' % (ci, kind, nm), None, 'check_report %s %d%%nat %s %s %s %s %d%%nat %s %s' % (
-                es, ids[nm], conv, rk, v0, zr, nn, first, q(kd['Idict'][nm]))))
+            checks.append(('%d/%s/I_%s' % (ci, kind, nm), None, 'check_report %s %s %s %d%%nat %s %s %s %s %d%%nat %s %s' % (
+                KN, EQ, es, ids[nm], conv, rk, v0, zr, nn, first, q(kd['Idict'][nm], F))))
         for node, idx in kd['node_index'].items():
             ev = kd['Vdict'].get(node)
-            if ev is None:
+            if not valid(ev, F):
                 continue
-            model = ('(vec_of %s 0 %d)' % (first, idx)) if idx >= 0 else '(0%Qc : QcF)'
-            checks.append(('%d/%s/V_%s' % (ci, kind, node), None, 'qc_eqb %s %s' % (model, q(ev))))
+            model = ('(vec_of %s %s 0 %d)' % (KN, first, idx)) if idx >= 0 else '(@f0 %s)' % KN
+            checks.append(('%d/%s/V_%s' % (ci, kind, node), None, '%s %s %s' % (EQ, model, q(ev, F))))
     return checks
 
 
@@ -356,7 +496,7 @@ def cases_file(items):
 def gen_cases(rng, tier):
     n = int(os.environ.get('VERIF_NCASES', 60 if tier == 'quick' else 400))
     cases = []
-    profiles = ['s', 'ivp', 'dc', 'mixed']
+    profiles = ['s', 'ivp', 'dc', 'mixed', 'ac']
     for i in range(n):
         prof = profiles[i % len(profiles)]
         nl = netgen.gen_netlist(rng, prof)
@@ -372,6 +512,10 @@ CORPUS = [
     {'netlist': ['H1 2 0 V1 3', 'R2 2 0 1', 'V1 1 0 dc 4', 'R1 1 0 2'], 'tags': ['corpus'], 's0': '2/1', 'methods': ['DM', 'LU']},
     {'netlist': ['V1 1 0 step 5', 'R1 1 2 2', 'C1 2 0 3 4', 'L1 2 3 5 1', 'R2 3 0 7', 'E1 4 0 2 0 3', 'R3 4 3 1'], 'tags': ['corpus'], 's0': '3/2', 'methods': ['DM', 'LU', 'GE']},
     {'netlist': ['V1 1 0 dc 6', 'R1 1 2 3', 'C1 2 0 2', 'R2 2 0 4', 'L1 2 3 1', 'R3 3 0 5'], 'tags': ['corpus', 'dc'], 's0': '1/1', 'methods': ['DM']},
+    # phasor (ac) analysis over the Gaussian rationals: sources with quarter-turn phases, two frequencies + dc
+    {'netlist': ['I1 1 0 ac 2 {pi/2} 3', 'R1 1 2 2', 'C1 2 0 {1/3}', 'R2 1 0 1'], 'tags': ['corpus', 'ac'], 's0': '2/1', 'methods': ['DM', 'LU'], 'api': False},
+    {'netlist': ['V1 1 0 ac 5 {-pi/2} 2', 'R1 1 2 2', 'L1 2 3 2', 'I1 3 0 ac 2 {pi/2} 2', 'R2 3 0 1', 'V2 3 4 dc 2', 'R3 4 0 1',
+                 'I2 0 2 ac 3 {pi} {1/2}', 'C1 2 0 {1/4}'], 'tags': ['corpus', 'ac'], 's0': '2/1', 'methods': ['DM'], 'api': False},
 ]
 
 
@@ -453,6 +597,7 @@ def run(tier='quick', replay=None):
             cases = [replay['case']]
         for c_ in cases:
             c_['tp_src'] = tr.tp_src if tr is not None else {}
+            c_.setdefault('api', False)     # the public-API dump of the worker is not used by this check
         log('run impl on %d cases' % len(cases))
         wres = core.run_impl('impl_circuit.py', cases, timeout=420)
         log('impl done')
@@ -517,14 +662,14 @@ def run(tier='quick', replay=None):
             ci = int(lab.split('/')[0])
             res.disagreements.append({'check': lab, 'case': cases[ci]})
         res.rule = ('random connected netlists (netgen: R/L/C tree + chords + sources + controlled sources, transformer, gyrator, '
-                    'mutual inductance, two-ports, wires, ammeters, duplicates; profiles dc/s/ivp/mixed; both current-sign conventions; '
+                    'mutual inductance, two-ports, wires, ammeters, duplicates; profiles dc/s/ivp/mixed/ac (ac = phasor analysis, evaluated over the Gaussian rationals); both current-sign conventions; '
                     '2-4 solver methods) plus a fixed corpus; non-trivial = Lcapy solved at least one analysis kind; distinct = distinct netlist text')
 
         # decide
         seen = set()
         for ce in res.counterexamples:
             key = 'law:' + re.sub(r'[^A-Za-z]+', '_', re.sub(r'\(.*', '', ce['law'].split(':')[-1])).strip('_')[:40] + ':' + \
-                  re.sub(r'[^A-Za-z]+', '', ce['law'].split(':')[0])[:12] + ':' + ce['kind']
+                  re.sub(r'[^A-Za-z]+', '', ce['law'].split(':')[0])[:12] + ':' + (ce['kind'] if ce['kind'] in KINDS else 'ac')
             if key in seen:
                 continue
             seen.add(key)
